@@ -1,7 +1,8 @@
 (* Entry points of the executable model: one named function sx -> sx per modelled component.
    The OCaml driver (ocaml/modelrun.ml) and the in-Coq cross-check both go through dispatch. *)
 From RcProxy Require Import Base.Bytes Base.Sx Base.Dec Gen.Generated Spec.KeySlot Model.Crc16
-  Model.RespBuf Model.Commands Model.ClientCodec.
+  Spec.RespGrammar Spec.SplitSpec Spec.CommandSpec
+  Model.RespBuf Model.Commands Model.ClientCodec Model.ClientFeed.
 
 Definition e_hash (a : sx) : sx :=
   match a with SB k => sN (Hash k) | _ => bad end.
@@ -36,6 +37,20 @@ Definition e_cdecode (a : sx) : sx :=
   | _ => bad
   end.
 
+Definition e_cfeed (a : sx) : sx :=
+  match a with
+  | SL [SN limit; SL chunks] =>
+      match map_opt get_b chunks with
+      | Some cs =>
+          let '(ms, en) := feed_all limit cs in
+          SL [ SL (map (fun m => SL (sx_cmsg m)) ms);
+               match en with FWait _ => SB (bs "wait") | FClosed => SB (bs "closed") | FStuck => SB (bs "stuck") end;
+               match en with FWait l => snat (length l) | _ => SN 0%Z end ]
+      | None => bad
+      end
+  | _ => bad
+  end.
+
 (* oracle: spec evaluated on the implementation's own output *)
 Definition ok : sx := SN 1%Z.
 Definition viol (sig : string) (details : list sx) : sx := SL (SB (bs sig) :: details).
@@ -47,11 +62,193 @@ Definition o_c05 (a : sx) : sx :=
   | _ => bad
   end.
 
+(* ---- spec oracles over the client decoder's observable output ---- *)
+(* parse one canonical request off the front of b (strict grammar), returning args and rest *)
+Definition strict_prefix (b : bytes) : option (list bytes * bytes) :=
+  match take_line b with
+  | Some (mk :: digits, rest) =>
+      if negb (N.eqb mk 42) then None else
+      match strict_dec digits with
+      | Some n => if N.eqb n 0 then None else strict_bulks (length rest) n rest
+      | None => None
+      end
+  | _ => None
+  end.
+
+Definition class_code (c : req_class) : sx :=
+  match c with
+  | CServed t => SL [SB (bs "served"); sN t]
+  | CUnknown => SL [SB (bs "unknown")]
+  | CWrongArgs => SL [SB (bs "wrongargs")]
+  | CTooLarge => SL [SB (bs "toolarge")]
+  end.
+
+Definition spec_class_of (limit : Z) (args : list bytes) : req_class :=
+  match args with
+  | [] => CUnknown
+  | name :: rest =>
+      let n := Z.of_nat (length rest) in
+      if (limit <? Z.of_nat (length (enc_request args)))%Z then CTooLarge
+      else match assoc_b (to_lower name) CommandStr2Type with
+           | None => CUnknown
+           | Some t =>
+               match assoc_n t CommandType2ArgsNumber with
+               | None => CWrongArgs
+               | Some a =>
+                   if negb (arity_ok a n) then CWrongArgs
+                   else if ((N.eqb t ReqEval || N.eqb t ReqEvalsha) && (n <? 3)%Z)%bool then CWrongArgs
+                   else CServed t
+               end
+           end
+  end.
+
+Definition type_class (t : N) : req_class :=
+  if N.eqb t ReqTooLarge then CTooLarge
+  else if N.eqb t UNKNOWN then CUnknown
+  else if N.eqb t ReqWrongArgumentsNumber then CWrongArgs
+  else CServed t.
+
+Definition class_eqb (a b : req_class) : bool := sx_eqb (class_code a) (class_code b).
+
+(* the body of a decoded message as printed by both sides: ((slot key req) ...) *)
+Definition get_body (s : sx) : option (list (N * bytes * bytes)) :=
+  match s with
+  | SL l => map_opt (fun f => match f with
+                              | SL [SN slot; SB k; SB r] => Some (Z.to_N slot, k, r)
+                              | _ => None end) l
+  | _ => None
+  end.
+
+Fixpoint nodup_n (l : list N) : bool :=
+  match l with [] => true | x :: r => negb (existsb (N.eqb x) r) && nodup_n r end.
+
+(* executable form of Spec.SplitSpec.wf_split1 / wf_split2 for the real slot function *)
+Definition split_ok (multi : bytes) (items : list (list bytes)) (body : list (N * bytes * bytes)) : bool :=
+  let slot_of (it : list bytes) := key_slot (hd [] it) in
+  nodup_n (map (fun f => fst (fst f)) body)
+  && forallb (fun it => existsb (fun f => N.eqb (fst (fst f)) (slot_of it)) body) items
+  && forallb (fun f =>
+       let s := fst (fst f) in
+       let mine := filter (fun it => N.eqb (slot_of it) s) items in
+       negb (match mine with [] => true | _ => false end)
+       && match strict_request (snd f) with
+          | Some got => sx_eqb (SL (map SB got)) (SL (map SB (multi :: concat mine)))
+          | None => false
+          end) body.
+
+Fixpoint chunk2 (l : list bytes) : list (list bytes) :=
+  match l with k :: v :: r => [k; v] :: chunk2 r | _ => [] end.
+
+(* o_req: all request-side oracles on one cdecode case.  input (limit b), output as printed. *)
+Definition o_req (which : N) (a : sx) : sx :=
+  match a with
+  | SL [SL [SN limit; SB b]; out] =>
+      match out with
+      | SL [SB tag] =>
+          if beqb tag (bs "nil") then viol "decoder-returned-nil-message-process-dies" []
+          else if beqb tag (bs "hang") then viol "decoder-does-not-terminate" []
+          else if beqb tag (bs "invalid") then
+            (* C08: a proper prefix of a canonical request must not be an error; C17: a canonical
+               request must not be rejected as invalid *)
+            match strict_prefix b with
+            | Some _ => viol "canonical-request-rejected-as-invalid" []
+            | None => ok
+            end
+          else (* wait *)
+            match strict_prefix b with
+            | Some _ => viol "canonical-request-not-recognised" []
+            | None => ok
+            end
+      | SL [SB tag; SN consumed; SN ty; SL keys; body] =>
+          match strict_prefix b, get_body body with
+          | None, _ => viol "non-canonical-request-accepted" []
+          | Some (args, rest), Some frs =>
+              let enc := enc_request args in
+              if negb (Z.eqb consumed (Z.of_nat (length enc))) then viol "consumed-differs-from-request-size" [snat (length enc)]
+              else if negb (class_eqb (type_class (Z.to_N ty)) (spec_class_of limit args))
+                   then viol "classification-differs-from-spec" [class_code (spec_class_of limit args)]
+              else if negb (forallb (fun f => match strict_request (snd f) with Some _ => true | None => false end) frs)
+                   then viol "forwarded-fragment-not-a-redis-request" []
+              else
+                let t := Z.to_N ty in
+                let rest_args := tl args in
+                if N.eqb t ReqMget then
+                  if split_ok (bs "mget") (map (fun k => [k]) rest_args) frs then ok else viol "mget-split-wrong" []
+                else if N.eqb t ReqDel then
+                  if split_ok (bs "del") (map (fun k => [k]) rest_args) frs then ok else viol "del-split-wrong" []
+                else if N.eqb t ReqMset then
+                  if split_ok (bs "mset") (chunk2 rest_args) frs then ok else viol "mset-split-wrong" []
+                else if class_eqb (type_class t) (CServed t) then
+                  (* single fragment: the client's own bytes, command name lower-cased, on the key's slot *)
+                  match frs, args with
+                  | [(slot, k, r)], name :: _ =>
+                      let key := if (N.eqb t ReqEval || N.eqb t ReqEvalsha)%bool then nth 2 rest_args [] else nth 0 rest_args [] in
+                      if negb (beqb r (enc_request (to_lower name :: rest_args))) then viol "forwarded-bytes-differ-from-request" []
+                      else if negb (N.eqb slot (key_slot key)) then viol "fragment-on-wrong-slot" []
+                      else ok
+                  | _, _ => viol "single-key-request-without-exactly-one-fragment" []
+                  end
+                else ok
+          | _, None => bad
+          end
+      | _ => bad
+      end
+  | _ => bad
+  end.
+Definition o_reqs := o_req 0.
+
+(* o_feed: the read loop's result must equal extraction (by the SPEC parser) from the concatenation *)
+Fixpoint spec_extract (fuel : nat) (limit : Z) (b : bytes) : list (list bytes) * bytes :=
+  match fuel with
+  | O => ([], b)
+  | S f => match strict_prefix b with
+           | Some (args, rest) =>
+               if match hd [] args with nm => beqb (to_lower nm) (bs "quit") end
+                  && class_eqb (spec_class_of limit args) (CServed ReqQuit)
+               then ([args], [])
+               else let '(rs, l) := spec_extract f limit rest in (args :: rs, l)
+           | None => ([], b)
+           end
+  end.
+
+Fixpoint forallb2_types (limit : Z) (msgs : list sx) (rs : list (list bytes)) : bool :=
+  match msgs, rs with
+  | [], [] => true
+  | SL (SN ty :: _) :: ms, r :: rs' =>
+      class_eqb (type_class (Z.to_N ty)) (spec_class_of limit r) && forallb2_types limit ms rs'
+  | _, _ => false
+  end.
+
+Definition o_feed (a : sx) : sx :=
+  match a with
+  | SL [SL [SN limit; SL chunks]; SL [SL msgs; SB en; SN leftn]] =>
+      match map_opt get_b chunks with
+      | Some cs =>
+          let stream := concat cs in
+          let '(rs, l) := spec_extract (S (length stream)) limit stream in
+          (* only judged when the stream is a (possibly truncated) well-formed pipeline: the
+             leftover must be a proper prefix of a canonical request; approximated by: the model
+             decoder is waiting on it *)
+          match decode limit l with
+          | DWait =>
+              if negb (Nat.eqb (length msgs) (length rs)) then viol "number-of-extracted-requests-differs" [snat (length rs)]
+              else if negb (forallb2_types limit msgs rs) then viol "extracted-request-classified-differently" []
+              else ok
+          | _ => ok
+          end
+      | None => bad
+      end
+  | _ => bad
+  end.
+
 Definition entries : list (bytes * (sx -> sx)) :=
   [ (bs "hash", e_hash);
     (bs "keyslot", e_keyslot);
     (bs "o_c05", o_c05);
-    (bs "cdecode", e_cdecode) ].
+    (bs "cdecode", e_cdecode);
+    (bs "cfeed", e_cfeed);
+    (bs "o_reqs", o_reqs);
+    (bs "o_feed", o_feed) ].
 
 Definition dispatch (name : bytes) (a : sx) : sx :=
   match assoc_b name entries with
